@@ -31,6 +31,21 @@ fn created(ctx: &mut Ctx, k: &mut u32) -> Vec<u8> {
         ctx.count("creator-returned-empty");
         return vec![];
     }
+    if ctx.rng.chance(1, 10) {
+        // a value in a well-known container format (ASN.1 DER ECDSA signature): the message stores
+        // and the verifier receives what the creating function returned, byte for byte
+        let id = uid(ctx, k);
+        let mut r = vec![0x01];
+        r.extend_from_slice(&id);
+        r.resize(32, 0x5a);
+        let s2: Vec<u8> = (0..32).map(|i| 0x11 + i as u8).collect();
+        let mut v = vec![0x30, 0x44, 0x02, 0x20];
+        v.extend_from_slice(&r);
+        v.extend_from_slice(&[0x02, 0x20]);
+        v.extend_from_slice(&s2);
+        ctx.count("creator-returned-der");
+        return v;
+    }
     uid(ctx, k)
 }
 
@@ -72,6 +87,9 @@ fn header(ctx: &mut Ctx) -> coset::Header {
                 }
             }
             _ => {}
+        }
+        if ctx.rng.chance(1, 8) {
+            h.alg = Some(crate::model::MLabel::Int(*ctx.rng.pick(&[-7i64, -35, -36, -8, -37, 5, 1, -6, -3])));
         }
         if let Some(c) = capi::b_header(&h) {
             return c;
@@ -461,8 +479,23 @@ fn sign_history(ctx: &mut Ctx) {
     // private use can be signed and encoded but not parsed back: for such a history the round trip may
     // fail (then there is nothing to verify), but it must not succeed with the signers renumbered.
     let undecodable = std::cell::Cell::new(false);
+    // one history in eight: the body header and the signers' headers differ only in the sign of a
+    // floating-point zero (equal under `==`, different on the wire)
+    let mut twin: Option<coset::Header> = None;
+    if ctx.rng.chance(1, 8) {
+        let (ha, hb) = super::structs::zero_twins(ctx);
+        if let (Some(a), Some(bh)) = (capi::b_header(&ha), capi::b_header(&hb)) {
+            b = b.protected(a);
+            hist.push("protected(h with +-0.0)".into());
+            twin = Some(bh);
+        }
+    }
     let mk_sig = |ctx: &mut Ctx| {
-        let mut s = coset::CoseSignatureBuilder::new().protected(header(ctx)).unprotected(header(ctx)).signature(small(ctx)).build();
+        let ph = match &twin {
+            Some(t) if ctx.rng.chance(2, 3) => t.clone(),
+            _ => header(ctx),
+        };
+        let mut s = coset::CoseSignatureBuilder::new().protected(ph).unprotected(header(ctx)).signature(small(ctx)).build();
         if ctx.rng.chance(1, 16) {
             let odd = Some(coset::RegisteredLabelWithPrivate::PrivateUse(*ctx.rng.pick(&[12345i64, 8, -9, -65536, 70000])));
             if ctx.rng.coin() {
@@ -483,11 +516,11 @@ fn sign_history(ctx: &mut Ctx) {
     };
     for _ in 0..ctx.rng.below(5) {
         match ctx.rng.below(4) {
-            0 => {
+            0 if twin.is_none() => {
                 b = b.protected(header(ctx));
                 hist.push("protected(h)".into());
             }
-            1 => {
+            0 | 1 => {
                 b = b.unprotected(header(ctx));
                 hist.push("unprotected(h)".into());
             }
